@@ -14,10 +14,10 @@ import random
 import re
 import vlib
 from props import peepgen as pg
+from implfns import peepobs
 
 PART = 'C02_peep_part'
 EXC = {1: 'OverflowError', 2: 'ValueError', 3: 'TypeError', 4: 'EvalError', 5: 'KeyError'}
-NEGZERO = 0x8000000000000000
 
 
 # ------------------------------------------------------------------ proof obligations
@@ -56,14 +56,17 @@ def prove_part(ctx):
 
 # ------------------------------------------------------------------ T-fn
 
-def tfn_suite(ctx, exe, suite, windows):
-    """real optimize() vs extracted model on instruction lists"""
-    raws = vlib.run_impl('peepfn.opt_list', [{'instrs': w} for w in windows])
+def tfn_suites(ctx, exe, suites):
+    """real optimize() vs extracted model on instruction lists.
+    suites: [(name, windows)]; one worker batch and one model batch for all.
+    Returns {name: [windows that the real optimize() changed]}"""
+    flat = [(name, w) for name, ws in suites for w in ws]
+    raws = vlib.run_impl('peepfn.opt_list', [{'instrs': w} for _, w in flat])
     jobs, its, ok_idx = [], [], []
-    for k, (w, r) in enumerate(zip(windows, raws)):
+    for k, ((suite, w), r) in enumerate(zip(flat, raws)):
         if not isinstance(r, dict) or 'in' not in r:
             ctx.broken.append(f'correspondence {suite}: worker failed: {str(r)[:300]}')
-            return
+            return {}
         it = pg.Intern()
         try:
             jobs.append([1, pg.to_pins(r['in'], it)])
@@ -74,17 +77,20 @@ def tfn_suite(ctx, exe, suite, windows):
         its.append(it)
         ok_idx.append(k)
     mouts = vlib.run_model(exe, jobs)
-    keys = set()
+    keys = {name: set() for name, _ in suites}
+    changed = {name: [] for name, _ in suites}
     for k, it, mo in zip(ok_idx, its, mouts):
-        w, r = windows[k], raws[k]
+        (suite, w), r = flat[k], raws[k]
         if isinstance(mo, str):
             ctx.broken.append(f'correspondence {suite}: model driver failed ({mo}) on {w!r}')
-            return
+            return changed
         st, ml = mo
+        if 'exc' not in r and r['in'] != r['out']:
+            changed[suite].append(w)
         if st == [3]:
             ctx.bump('tfn:unmodelled(float // or **)')
             continue
-        keys.add(json.dumps(w))
+        keys[suite].add(json.dumps(w))
         if 'exc' in r:
             # a host exception escaping optimize(): a defect by itself
             cls = pg.window_class(r.get('minimal', w))
@@ -105,76 +111,14 @@ def tfn_suite(ctx, exe, suite, windows):
             ctx.report(f'C02/peephole-model-differs({pg.window_class(w)})',
                        {'suite': suite, 'window': w, 'impl': r['out'], 'model': ml, 'model_status': st}, False)
         ctx.bump('tfn:changed' if r['in'] != r['out'] else 'tfn:unchanged')
-    ctx.count(suite, len(windows), keys)
-    if windows:
-        ctx.sample({'suite': suite, 'window': windows[len(windows) // 2]})
+    for name, ws in suites:
+        ctx.count(name, len(ws), keys[name])
+        if ws:
+            ctx.sample({'suite': name, 'window': ws[len(ws) // 2]})
+    return changed
 
 
 # ------------------------------------------------------------------ property oracle on windows
-
-def short(o):
-    if o[0] == 'end':
-        reason, trap = o[5], o[6]
-        return f'trap({trap})' if reason == 3 else 'ok'
-    if o[0] in ('asm-exc', 'host-exc'):
-        return f'{o[0]}({o[1]})'
-    return o[0]
-
-
-def unsign(x):
-    if isinstance(x, list):
-        if len(x) == 2 and x[0] in (3, 4) and x[1] == NEGZERO:
-            return [x[0], 0]
-        return [unsign(y) for y in x]
-    return x
-
-
-DEFAULTS = ([1, 0], [2, 0], [3, 0], [4, 0], [5, []])
-
-
-def obs_cells(a, b):
-    """cell lists equal up to: an unset cell = the default a read materialises"""
-    if len(a) != len(b):
-        return False
-    for x, y in zip(a, b):
-        if x == y:
-            continue
-        if (x == [] and y in DEFAULTS) or (y == [] and x in DEFAULTS):
-            continue
-        return False
-    return True
-
-
-def obs_heap(ha, hb):
-    if len(ha) != len(hb):
-        return False
-    return all(ka == kb and obs_cells(ca, cb) for (ka, ca), (kb, cb) in zip(ha, hb))
-
-
-def diffkind(b, a):
-    """None when the two outcomes are observably equal"""
-    if b[0] != a[0]:
-        return f'{short(b)}->{short(a)}'
-    if b[0] == 'limit':
-        return None if b[1] == a[1] else 'events'
-    if b[0] != 'end':
-        return None if b == a else f'{short(b)}->{short(a)}'
-    if b[4:9] != a[4:9]:
-        return f'{short(b)}->{short(a)}'
-    if b[11] != a[11]:
-        return 'events'
-    if b[1] != a[1]:
-        if unsign(b[1]) == unsign(a[1]):
-            return 'zero-sign'
-        if b[1] and a[1] and b[1][-1] != a[1][-1] and b[1][:-1] == a[1][:-1]:
-            return 'path'
-        return 'stack'
-    if b[3] != a[3] or b[9:11] != a[9:11]:
-        return 'control'
-    if not obs_heap(b[2], a[2]):
-        return 'zero-sign' if obs_heap(unsign(b[2]), unsign(a[2])) else 'vars'
-    return None
-
 
 def pre_states_for(w, tier):
     if tier == 'thorough' or len(w) <= 2:
@@ -185,41 +129,43 @@ def pre_states_for(w, tier):
     return [p for p in pg.PRE_STATES if p[0] in want]
 
 
-def exec_suite(ctx, suite, windows, tier):
-    """windows that the real optimize() changes, executed before and after"""
-    probe = vlib.run_impl('peepfn.exec_window', [{'pre': [], 'window': w} for w in windows])
+def exec_suites(ctx, suites, tier):
+    """suites: [(name, windows the real optimize() changes)]: executed before
+    and after on the real machine from the constructed pre-states"""
     cases = []
-    for w, r in zip(windows, probe):
+    for suite, ws in suites:
+        for w in ws:
+            for name, pre in pre_states_for(w, tier):
+                cases.append({'pre': pre, 'window': w, 'pname': name, 'suite': suite})
+    rs = vlib.run_impl('peepfn.exec_window', [{'pre': c['pre'], 'window': c['window']} for c in cases])
+    keys = {name: set() for name, _ in suites}
+    n = {name: 0 for name, _ in suites}
+    for c, r in zip(cases, rs):
+        suite = c['suite']
         if not isinstance(r, dict) or 'harness' in r:
             ctx.broken.append(f'oracle {suite}: worker failed: {str(r)[:300]}')
             return
-        if r.get('changed'):
-            for name, pre in pre_states_for(w, tier):
-                cases.append({'pre': pre, 'window': w, 'pname': name})
-        elif 'exc' in r:
-            ctx.bump('exec:optimize-raised')      # reported by the T-fn suite
-    rs = vlib.run_impl('peepfn.exec_window', cases)
-    keys = set()
-    for c, r in zip(cases, rs):
-        if not isinstance(r, dict) or 'harness' in r or 'before' not in r:
-            ctx.broken.append(f'oracle {suite}: worker failed: {str(r)[:300]}')
-            return
-        keys.add(json.dumps([c['pname'], c['window']]))
-        dk = diffkind(r['before'], r['after'])
+        n[suite] += 1
+        if not r.get('changed') or 'before' not in r:
+            ctx.bump('exec:same-final-form')      # e.g. push% 1.0 -> push1%
+            continue
+        keys[suite].add(json.dumps([c['pname'], c['window']]))
+        dk = r['diff']
         ctx.bump('exec:' + ('same' if dk is None else 'differs'))
         if dk is None:
             continue
-        cls = pg.window_class(r.get('minimal', c['window']))
-        ctx.report(f'C02/peephole-exec-differs({cls},{dk})',
+        cls = pg.window_class(r['minimal'])
+        ctx.report(f'C02/peephole-exec-differs({cls},{r["min_diff"]})',
                    {'suite': suite, 'pre_state': c['pname'], 'window': c['window'],
-                    'minimal': r.get('minimal'), 'optimized_to': r.get('after_final'),
-                    'before': [short(r['before']), r['before'][1] if r['before'][0] == 'end' else None],
-                    'after': [short(r['after']), r['after'][1] if r['after'][0] == 'end' else None]}, True)
-    ctx.count(suite, len(cases), keys)
-    ctx.bump('exec:windows-changed-by-optimize', len({json.dumps(c['window']) for c in cases}))
+                    'minimal': r['minimal'], 'optimized_to': r.get('after_final'),
+                    'before': [peepobs.short(r['before']), r['before'][1] if r['before'][0] == 'end' else None],
+                    'after': [peepobs.short(r['after']), r['after'][1] if r['after'][0] == 'end' else None]}, True)
+    for name, ws in suites:
+        ctx.count(name, n[name], keys[name])
+    ctx.bump('exec:windows-changed-by-optimize', sum(len(ws) for _, ws in suites))
     if cases:
         c = cases[len(cases) // 2]
-        ctx.sample({'suite': suite, 'pre_state': c['pname'], 'window': c['window']})
+        ctx.sample({'suite': c['suite'], 'pre_state': c['pname'], 'window': c['window']})
 
 
 # ------------------------------------------------------------------ whole programs at levels 0..3
@@ -338,11 +284,9 @@ def run(ctx, tier):
         wl = wl[b:b + nl] + wl[-2:]
     suites = [('peep-windows<=2', w2), ('peep-push-push-op', ppb), ('peep-windows3-sampled', w3),
               ('peep-long-lists', wl)]
-    nhaz = 0
-    for name, ws in suites:
-        keep = [w for w in ws if not pg.exp_hazard(w)]
-        nhaz += len(ws) - len(keep)
-        tfn_suite(ctx, exe, name, keep)
+    nhaz = sum(1 for _, ws in suites for w in ws if pg.exp_hazard(w))
+    suites = [(name, [w for w in ws if not pg.exp_hazard(w)]) for name, ws in suites]
+    changed = tfn_suites(ctx, exe, suites)
     ctx.bump('excluded(integer ** with huge exponent)', nhaz)
     ctx.rule.append(f'T-fn: real QvmCode.optimize() vs extracted model on ALL windows of length <= 2 ({len(w2)}) over an '
                     f'{len(pg.ALPHABET)}-symbol alphabet (pushes of each type with boundary operands, every conv, read/store of '
@@ -350,11 +294,11 @@ def run(ctx, tier):
                     f'_dbg_info_start/_end, _empty_block, io/pop/dupl), ALL push/push/op triples ({len(ppb)}), {n3} sampled '
                     f'triples and {nl} seeded lists of length 4..12; compared at attribute level (op, type chars, scope, args '
                     'with Python type); non-trivial = distinct instruction list')
-    for name, ws in suites[:3]:
-        keep = [w for w in ws if not pg.exp_hazard(w)]
-        if name == 'peep-windows3-sampled' and tier == 'quick':
-            keep = keep[:1500]
-        exec_suite(ctx, name.replace('peep-', 'exec-'), keep, tier)
+    ex = []
+    for name, _ in suites[:3]:
+        ws = changed.get(name, [])
+        ex.append((name.replace('peep-', 'exec-'), ws))
+    exec_suites(ctx, ex, tier)
     ctx.rule.append('property oracle (no model involved): every window the real optimize() changes is assembled by the real '
                     'QvmCode into a real module (variables declared, jump targets defined) and run on the real machine before '
                     f'and after, from {len(pg.PRE_STATES)} constructed states (typed operands on the stack, variables set/unset): '
